@@ -495,6 +495,11 @@ def plan(tier):
         for behs in (("ok", "report+ok"), ("error", "report-in-ok"), ("status+ok", "loss"), ("Error+ok", "ok")):
             for c in cfgs(two, behs, ("Q", "L"), (None,), (False, True), True):
                 items.append(({**c, "mode": "socket"}, 1 if behs[0] == "ok" else 0, None))
+        # the peer closes the connection in an orderly way (end of stream instead of a read error) while a write waits for its reply
+        for behs in (("ok", "loss"), ("loss", "ok")):
+            for c in cfgs(two, behs, ("Q", "L"), (None,), (False, True), True):
+                items.append(({**c, "mode": "socket", "loss_mode": "eof"}, 0, None))
+                items.append(({**c, "loss_mode": "eof"}, 0, None))
     else:
         for behs in itertools.product(BEHAVIOURS, repeat=3):
             if behs.count("loss") > 1:
